@@ -1,0 +1,213 @@
+//go:build verif
+
+package stackage
+
+/*
+verif_hooks_on.go is only compiled with the `verif` build tag. It offers
+read-only introspection (VerifDump) and a lock-point callback (verifPoint)
+for external runtime monitors. Nothing here alters library behaviour.
+*/
+
+import (
+	"sync/atomic"
+	"unsafe"
+)
+
+/*
+VerifSnapshot is the raw state of a Stack or Condition as seen by VerifDump.
+*/
+type VerifSnapshot struct {
+	IsStack bool // false: Condition
+	Nil     bool // embedded pointer is nil
+	HasCfg  bool // configuration record present (slot 0 / cfg field)
+
+	// configuration record
+	Typ    uint8
+	Opt    uint16
+	Cap    int
+	Ord    bool
+	ID     string
+	Cat    string
+	Sym    string
+	Ljc    string
+	Enc    [][]string // deep copy
+	Err    error
+	AuxPtr uintptr        // identity of the aux map (0 = nil)
+	Aux    map[string]any // shallow copy
+	Fn     [9]uintptr     // closure identities: evl ppf vpf rpf eqf lss umf maf mfn
+	LogSys bool           // log system present
+	LogPtr uintptr        // identity of the *log.Logger
+	LogLvl uint16
+	Mtx    bool
+	Ldr    bool
+
+	// addresses (for race-report classification)
+	CfgAddr uintptr
+	CfgSize uintptr
+	LdrOff  uintptr
+	OptOff  uintptr
+
+	// stack only
+	HdrAddr  uintptr
+	Len      int // raw slice length (configuration slot included)
+	SliceCap int
+	Data     uintptr
+	Slot0Cfg bool  // slot 0 holds a *nodeConfig
+	Slots    []any // raw slots 1..n (nil included), shallow copy
+
+	// condition only
+	Kw string
+	Op Operator
+	Ex any
+}
+
+func verifFnID(p unsafe.Pointer) uintptr {
+	// a func value is a pointer to its closure record
+	return *(*uintptr)(p)
+}
+
+func verifDumpCfg(s *VerifSnapshot, c *nodeConfig) {
+	if c == nil {
+		return
+	}
+	s.HasCfg = true
+	s.Typ = uint8(c.typ)
+	s.Opt = uint16(c.opt)
+	s.Cap = c.cap
+	s.Ord = c.ord
+	s.ID = c.id
+	s.Cat = c.cat
+	s.Sym = c.sym
+	s.Ljc = c.ljc
+	if c.enc != nil {
+		s.Enc = make([][]string, len(c.enc))
+		for i := range c.enc {
+			s.Enc[i] = append([]string{}, c.enc[i]...)
+		}
+	}
+	s.Err = c.err
+	if c.aux != nil {
+		s.AuxPtr = *(*uintptr)(unsafe.Pointer(&c.aux))
+		s.Aux = make(map[string]any, len(c.aux))
+		for k, v := range c.aux {
+			s.Aux[k] = v
+		}
+	}
+	s.Fn = [9]uintptr{
+		verifFnID(unsafe.Pointer(&c.evl)),
+		verifFnID(unsafe.Pointer(&c.ppf)),
+		verifFnID(unsafe.Pointer(&c.vpf)),
+		verifFnID(unsafe.Pointer(&c.rpf)),
+		verifFnID(unsafe.Pointer(&c.eqf)),
+		verifFnID(unsafe.Pointer(&c.lss)),
+		verifFnID(unsafe.Pointer(&c.umf)),
+		verifFnID(unsafe.Pointer(&c.maf)),
+		verifFnID(unsafe.Pointer(&c.mfn)),
+	}
+	if c.log != nil {
+		s.LogSys = true
+		s.LogPtr = uintptr(unsafe.Pointer(c.log.log))
+		s.LogLvl = uint16(c.log.lvl)
+	}
+	s.Mtx = c.mtx != nil
+	s.Ldr = c.ldr != nil
+	s.CfgAddr = uintptr(unsafe.Pointer(c))
+	s.CfgSize = unsafe.Sizeof(*c)
+	s.LdrOff = unsafe.Offsetof(c.ldr)
+	s.OptOff = unsafe.Offsetof(c.opt)
+}
+
+func verifDumpStack(r *stack) (s VerifSnapshot) {
+	s.IsStack = true
+	if r == nil {
+		s.Nil = true
+		return
+	}
+	s.HdrAddr = uintptr(unsafe.Pointer(r))
+	s.Len = len(*r)
+	s.SliceCap = cap(*r)
+	if cap(*r) > 0 {
+		s.Data = uintptr(unsafe.Pointer(unsafe.SliceData(*r)))
+	}
+	if len(*r) > 0 {
+		if c, ok := (*r)[0].(*nodeConfig); ok {
+			s.Slot0Cfg = true
+			verifDumpCfg(&s, c)
+		}
+		s.Slots = append([]any{}, (*r)[1:]...)
+	}
+	return
+}
+
+func verifDumpCond(r *condition) (s VerifSnapshot) {
+	if r == nil {
+		s.Nil = true
+		return
+	}
+	verifDumpCfg(&s, r.cfg)
+	s.Kw = r.kw
+	s.Op = r.op
+	s.Ex = r.ex
+	return
+}
+
+/*
+VerifDump returns the raw state of x, which must be a Stack, a Condition, a
+pointer to either, or an alias convertible to either. Nothing is modified.
+*/
+func VerifDump(x any) (s VerifSnapshot, ok bool) {
+	switch tv := x.(type) {
+	case Stack:
+		return verifDumpStack(tv.stack), true
+	case *Stack:
+		if tv != nil {
+			return verifDumpStack(tv.stack), true
+		}
+		return
+	case Condition:
+		return verifDumpCond(tv.condition), true
+	case *Condition:
+		if tv != nil {
+			return verifDumpCond(tv.condition), true
+		}
+		return
+	}
+
+	defer func() {
+		if recover() != nil {
+			s, ok = VerifSnapshot{}, false
+		}
+	}()
+	if st, sok := stackTypeAliasConverter(x); sok {
+		return verifDumpStack(st.stack), true
+	}
+	if co, cok := conditionTypeAliasConverter(x); cok {
+		return verifDumpCond(co.condition), true
+	}
+	return
+}
+
+type verifHookFn func(point string, id uintptr)
+
+var verifHook atomic.Pointer[verifHookFn]
+
+/*
+VerifSetHook installs (or, with nil, removes) the callback invoked at the
+lock points of a mutex-enabled stack: "lock.want" immediately before the
+mutex is acquired, "lock.held" immediately after, "lock.released" immediately
+after it is released. id is the address of the stack instance.
+*/
+func VerifSetHook(f func(point string, id uintptr)) {
+	if f == nil {
+		verifHook.Store(nil)
+		return
+	}
+	g := verifHookFn(f)
+	verifHook.Store(&g)
+}
+
+func verifPoint(point string, r *stack) {
+	if h := verifHook.Load(); h != nil {
+		(*h)(point, uintptr(unsafe.Pointer(r)))
+	}
+}
